@@ -141,6 +141,12 @@ structure Cfg where
   guarded : Bool
   /-- the writer uses `with atomic_write(...) as f:` (false: a bare object closed at the end, `Table.write`) -/
   withBlock : Bool
+  /-- the writer's own `except` clause unlinks the destination before re-raising
+      (`format/alignment.py save_to_filename`) -/
+  bodyUnlink : Bool
+  /-- the writer closes the file itself inside the with-block (`write_alignment_to_file: f.close()`),
+      so a failing close is handled like a failing write -/
+  closeInBody : Bool
   /-- directory holding the destination (and the temp dir) -/
   dir : Path
   /-- destination file name (for a zip-member target: the archive's file name) -/
@@ -162,9 +168,13 @@ def Cfg.newData (c : Cfg) : Data := c.chunks.flatten
 def writes (c : Cfg) (chunks : List Data) : List Instr :=
   chunks.map fun ch => ⟨.write c.tmpfile ch, .body⟩
 
-/-- constructor, `__enter__`, the body's writes and the `close()` at the top of `__exit__` -/
+/-- the (one effective) close of the temp file: at the top of `__exit__`, or already inside the
+    writer's with-block -/
+def closeInstr (c : Cfg) : Instr := ⟨.close c.tmpfile, if c.closeInBody then .body else .exitClose⟩
+
+/-- constructor, `__enter__`, the body's writes and the `close()` -/
 def pre (c : Cfg) : List Instr :=
-  [⟨.mkdir c.tmpdir, .ctor⟩, ⟨.openW c.tmpfile, .enter⟩] ++ writes c c.chunks ++ [⟨.close c.tmpfile, .exitClose⟩]
+  [⟨.mkdir c.tmpdir, .ctor⟩, ⟨.openW c.tmpfile, .enter⟩] ++ writes c c.chunks ++ [closeInstr c]
 
 def commitInstrs (c : Cfg) : List Instr :=
   match c.zipMember with
@@ -179,7 +189,8 @@ def post (c : Cfg) : List Instr := commitInstrs c ++ [⟨.rmtree c.tmpdir, .clea
 /-- the calls of one successful `with atomic_write(dest) as f: f.write(chunk)*` -/
 def program (c : Cfg) : List Instr := pre c ++ post c
 
-/-- one instruction as the code runs it: `except FileNotFoundError: pass` around the unlink -/
+/-- one instruction as the code runs it: `except FileNotFoundError: pass` around the unlink
+    (phase `commitUnlink` also tags the writer's own `try: os.unlink(dest) except Exception: pass`) -/
 def runInstr (fs : FS) (i : Instr) : Except Errno FS :=
   match step fs i.call with
   | .ok fs' => .ok fs'
@@ -201,13 +212,16 @@ def handler (c : Cfg) : Phase → List Instr
   | .ctor => []
   | .enter => if c.guarded then [⟨.rmtree c.tmpdir, .cleanup⟩] else []
   | .body =>
-    if c.withBlock then [⟨.close c.tmpfile, .exitClose⟩, ⟨.rmtree c.tmpdir, .cleanup⟩] else []
+    -- `except Exception: try: os.unlink(filename) except Exception: pass; raise` of save_to_filename,
+    -- then `__exit__(exc)`: close, rmtree
+    (if c.bodyUnlink then [⟨.unlink c.dest, .commitUnlink⟩] else []) ++
+    (if c.withBlock then [⟨.close c.tmpfile, .exitClose⟩, ⟨.rmtree c.tmpdir, .cleanup⟩] else [])
   | .exitClose => if c.guarded then [⟨.rmtree c.tmpdir, .cleanup⟩] else []
   | .commitUnlink =>
     -- `finally: src.rename(dest)` still runs, then the error propagates past the rmtree
     if c.guarded then [⟨.rmtree c.tmpdir, .cleanup⟩] else [⟨.rename c.tmpfile c.dest, .commitRename⟩]
   | .commitRename => if c.guarded then [⟨.rmtree c.tmpdir, .cleanup⟩] else []
-  | .zipData => if c.guarded then [⟨.rmtree c.tmpdir, .cleanup⟩] else [⟨.zipDir c.dest, .zipDir⟩]
+  | .zipData => if c.guarded then [⟨.rmtree c.tmpdir, .cleanup⟩] else []   -- the ZipFile constructor / write raised
   | .zipDir => if c.guarded then [⟨.rmtree c.tmpdir, .cleanup⟩] else []
   | .cleanup => []
 
